@@ -15,6 +15,7 @@
 //     receives from through a relay field (src_done_signal)
 //   - h2/relay.go: every `destMu.Lock()` is released on every path of its statement list
 //     (src_destmu_released_on_every_path)
+//   - h2/relay.go (processFrame): no `err :=` in an inner scope (src_processframe_errors_reach_return)
 //   - h2/relay.go (emitEligibleFrames): is the send into `output` a case of a
 //     select with another receive case (src_emit_abortable) or a bare send
 //
@@ -435,6 +436,27 @@ func main() {
 	}
 	destMuOK := locks > 0 && locks == disciplined
 
+	// --- processFrame: `err` is declared once at the top; a `:=` that defines another `err` in an inner
+	// scope (an `if err := ...; ...` or a short declaration inside a case) would keep errors from the return
+	pf := funcDecl(relay, "relay", "processFrame")
+	shadowed := 0
+	ast.Inspect(pf.Body, func(n ast.Node) bool {
+		if _, ok := n.(*ast.FuncLit); ok {
+			return false
+		}
+		as, ok := n.(*ast.AssignStmt)
+		if !ok || as.Tok != token.DEFINE {
+			return true
+		}
+		for _, l := range as.Lhs {
+			if id, ok := l.(*ast.Ident); ok && id.Name == "err" {
+				shadowed++
+			}
+		}
+		return true
+	})
+	errsReachReturn := shadowed == 0
+
 	b := func(v bool) string {
 		if v {
 			return "true"
@@ -455,6 +477,8 @@ func main() {
 		"Definition frame_ready_capacity : nat := " + strconv.Itoa(frameReadyCap) + ".\n" +
 		"(* every destMu.Lock() in relay.go is released on every path (defer Unlock, or Unlock with no return in between) *)\n" +
 		"Definition src_destmu_released_on_every_path : bool := " + b(destMuOK) + ".\n" +
+		"(* processFrame never re-declares `err` in an inner scope: every error assigned in its switch reaches `return err` *)\n" +
+		"Definition src_processframe_errors_reach_return : bool := " + b(errsReachReturn) + ".\n" +
 		"(* every shape the translator looks for was found *)\n" +
 		"Definition src_shape_ok : bool := " + b(len(problems) == 0) + ".\n"
 	for _, m := range problems {
